@@ -5,7 +5,9 @@ cd "$(dirname "$(readlink -f "$0")")"
 export CARGO_NET_OFFLINE=true
 mkdir -p out evidence
 (cd harness && cargo build --release --offline)
-if [ -d fuzz ] && [ -f fuzz/Cargo.toml ]; then
-  (cd fuzz && cargo +nightly fuzz build -O --debug-assertions 2>&1 | tail -3) || echo "fuzz targets did not build (thorough tier only)"
+# libFuzzer targets (used by the thorough tier of C12, C13, C14, C20 only); a failure here does not
+# affect the quick tier
+if [ -f harness/fuzz/Cargo.toml ]; then
+  (cd harness && cargo +nightly fuzz build 2>&1 | tail -3) || echo "fuzz targets did not build (thorough tier runs without the libFuzzer campaigns)"
 fi
 echo "setup ok"
